@@ -1,6 +1,7 @@
 package main
 
 import (
+	"context"
 	"flag"
 	"runtime/pprof"
 	"fmt"
@@ -114,6 +115,15 @@ func cmdFunc(args []string) {
 			}
 			os.Exit(0)
 		}
+		if os.Getenv("GVC_COVERALL") != "" {
+			res.runHoudini(*tier)
+			en := enableAsserts(res.Candidates)
+			for _, o := range res.Obls {
+				r := runSolver(context.Background(), solvers[0], Script(append(append([]*Term{}, en...), o.PC), ScriptOpts{}), 5)
+				fmt.Printf("   reach %-8s %s %s\n", r.verdict, o.Name, o.Pos)
+			}
+			os.Exit(0)
+		}
 		rounds, q := res.runHoudini(*tier)
 		solveAll(res.Obls, res.Candidates, *tier, false)
 		solveAll(res.Covers, res.Candidates, *tier, true)
@@ -128,6 +138,12 @@ func cmdFunc(args []string) {
 			if o.Verdict != "sat" {
 				ok = "VACUOUS?"
 				fail++
+			}
+			{
+				if *dump != "" {
+					os.MkdirAll(*dump, 0o755)
+					os.WriteFile(*dump+"/"+sanitize(o.Name)+".smt2", []byte(Script(append(enableAsserts(res.Candidates), o.PC), ScriptOpts{})), 0o644)
+				}
 			}
 			fmt.Printf("   cover %-40s %s (%s)\n", o.Name, ok, o.Verdict)
 		}
